@@ -108,6 +108,15 @@ decreasing_by
   apply count_set_lt
   simpa using hv
 
+/-- One iteration of the chain loop BEFORE the fix (no `seen`, `continue` on a
+    page that is not an overflow page): the next value of the loop variable `n`
+    and whether a section was appended to the rope.  `none` = the loop ended. -/
+def chainIterUnfixed (db : Db) (n : Nat) : Option (Nat × Bool) :=
+  if n = 0 then none
+  else if !pageReadable db n then none
+  else if byteAt db.file (n * db.pageSz + 25) != 7 then some (n, false)   -- `continue`: n is unchanged
+  else some (u32 db (n * db.pageSz + 16), true)
+
 /-- the items of one hash page: for every entry whose data item is an
     off-page reference, walk its chain -/
 def items (db : Db) (pageOff : Nat) : List Nat → List Bool → List Rope → Option (List Rope × List Bool)
